@@ -124,6 +124,20 @@ def attribution_battery():
                       note="signal list order differs from header order"))
     b.append(Scenario("CLK Y\nC 1\nC 2\n", [("in", "CLK", 1, 0), ("out", "Y", 8)], default_answer=[1],
                       answers={3: [1], 6: [2]}, note="clocked"))
+    # second-round additions: names differing only in case, layouts that are a prefix of the signal list, expected Z
+    # against an unknown output
+    Sc = [("in", "A", 1, 0), ("out", "q", 8), ("out", "Q", 8), ("out", "Data", 8), ("out", "DATA", 8)]
+    b.append(Scenario("A q Q Data DATA\n0 1 2 3 4\n1 5 6 7 8\n", Sc, layout=["q", "Q", "Data", "DATA"], default_answer=[1, 2, 3, 4],
+                      answers={2: [5, 6, 7, 9]}, note="signal names that differ only in letter case"))
+    b.append(Scenario("A q Q Data DATA\n0 1 2 3 4\n1 5 6 7 8\n", Sc, layout=["DATA", "Q", "q", "Data"], default_answer=[4, 2, 1, 3],
+                      answers={2: [8, 6, 5, 7]}, note="case-only names, permuted layout"))
+    Sp = [("in", "A", 1, 0), ("out", "B", 8), ("out", "C", 8), ("out", "D", 8)]
+    for lay, ans in ((["B"], [1]), (["B", "C"], [1, 2]), (["C"], [2]), (["B", "D"], [1, 3]), (["C", "D"], [2, 3])):
+        b.append(Scenario("A B C D\n0 1 2 3\n1 X Z 3\n", Sp, layout=lay, default_answer=ans,
+                          note="layout %s of outputs B C D: unsupplied signals are reported as X" % lay))
+    b.append(Scenario("A B C D\n0 Z Z Z\n1 Z 2 X\n", Sp, layout=["B", "C", "D"], default_answer=["X", "Z", 0],
+                      answers={2: ["Z", "X", "X"]}, note="expected Z against outputs X / Z / value"))
+    b.append(Scenario("A B C D\n0 Z Z Z\n", Sp, layout=["C"], default_answer=["Z"], note="expected Z, signal never supplied"))
     return b
 
 
@@ -266,6 +280,11 @@ def reads_battery():
                       expect={"items": ["row", "err"]}, note="reading Z is an error item"))
     b.append(Scenario("A Y\n1 X\n(Y) X\n", S, answers={0: [1, 0], 1: ["X", 0]}, default_answer=[0, 0],
                       expect={"items": ["row", "err"]}, note="reading X is an error item"))
+    for expr in ("(0 & Y)", "(0 * Y)", "(Y & 0)", "(Y * 0)", "(1 | Y)", "((1 = 9) & Y)"):
+        for bad in ("Z", "X"):
+            b.append(Scenario("A Y\n1 X\n%s X\n" % expr, S, answers={0: [1, 0], 1: [bad, 0]}, default_answer=[0, 0],
+                              expect={"items": ["row", "err"]},
+                              note="%s with Y read as %s is an error item: no operand read is skipped" % (expr, bad)))
     b.append(Scenario("A Y V\ndeclare V = 8 / Y;\nlet Y = 5;\n(Y) X X\n(Y) X X\n(Y) X X\n", S,
                       answers={0: [1, 0], 1: [1, 0], 2: [0, 0], 3: [1, 0]}, default_answer=[1, 0], stop_on_err=False,
                       expect={"row_inputs_loose": [["5", "0"], ["5", "0"]], "items": ["row", "err", "row"]},
@@ -367,6 +386,14 @@ def virtual_battery():
                       expect={"row_expected": [["X", "X", "X"]], "row_outputs": [["7", "0", "7"]]}, note="virtual signal without a column"))
     b.append(Scenario("A B V W\ndeclare V = B;\ndeclare W = B * 2;\n0 X 1 2\n", S, default_answer=[1, 0],
                       expect={"row_outputs_set": True}, note="two declarations"))
+    for expr in ("B & C", "B * C", "C & B", "C * B"):
+        b.append(Scenario("A B C V\ndeclare V = %s;\n0 X X X\n0 X X X\n0 X X X\n" % expr, S,
+                          answers={0: [3, 5], 1: [3, 5], 2: [0, "Z"], 3: [0, 4]}, default_answer=[0, 0], stop_on_err=False,
+                          expect={"items": ["row", "err", "row"]},
+                          note="declare V = %s with B = 0 and C = Z is an error item: no operand read is skipped" % expr))
+    b.append(Scenario("A B V\ndeclare V = B * 2;\n1 X X\n1 X X\n1 X X\n", S, answers={1: [3, 0], 2: [4, 0], 3: [5, 0]},
+                      default_answer=[0, 0], expect={"row_outputs": [["3", "0", "6"], ["4", "0", "8"], ["5", "0", "10"]]},
+                      note="rows that repeat their inputs still see the row's own outputs"))
     return b
 
 
@@ -462,6 +489,25 @@ def control_battery():
     b.append(sc("A B Y\nloop(i,2)\nloop(j,2)\n(i) (j) X\nend loop\nend loop\n", [(0, 0), (0, 1), (1, 0), (1, 1)], "nested loops"))
     b.append(sc("A B Y\nlet v = 1;\nloop(i,2)\nlet v = v + 1;\n(v) 0 X\nend loop\n(v) 0 X\n", [(2, 0), (3, 0), (1, 0)],
                 "rebinding inside the loop shadows; the outer binding comes back"))
+    # second-round additions: conditions that are negative, zero-trip loops followed by reads of shadowed names,
+    # zero-trip loops nested in loops, the 64th bit of bits()
+    b.append(sc("A B Y\nlet n = 0-3;\nwhile(n)\n(n+3) 4 X\nlet n = n+1;\nend while\n9 7 X\n", [(0, 4), (1, 4), (2, 4), (9, 7)],
+                "a negative while condition is true"))
+    b.append(sc("A B Y\nlet k = 2;\nwhile(~k)\n(k) 3 X\nlet k = k - 3;\nend while\n8 8 X\n", [(2, 3), (8, 8)],
+                "while(~k) stops only at ~k = 0"))
+    b.append(sc("A B Y\nlet i = 5;\nloop(i,0)\n1 1 X\nend loop\n(i) 6 X\n", [(5, 6)],
+                "zero-trip loop whose counter shadows an outer variable leaves no binding behind"))
+    b.append(sc("A B Y\nlet v = 7;\nloop(o,2)\nlet v = 1;\nloop(z,0)\n0 0 X\nend loop\n(o+1) 8 X\nend loop\n(v) 10 X\n",
+                [(1, 8), (2, 8), (7, 10)], "zero-trip loop nested in a loop: the outer frame still ends with the outer loop"))
+    b.append(sc("A B Y\nloop(i,3)\nloop(j,i)\n(i) (j) X\nend loop\nend loop\n(9) 9 X\n", [(1, 0), (2, 0), (2, 1), (9, 9)],
+                "triangular nest: inner loop with bound 0 on the first pass"))
+    b.append(sc("A B Y\nlet k = 0;\nloop(i,2)\nrepeat(k) 1 1 X\n(i) 5 X\nend loop\n", [(0, 5), (1, 5)],
+                "zero-trip repeat inside a loop"))
+    n64 = " ".join("I%d" % i for i in range(64))
+    s64_ = [("in", "I%d" % i, 1, 0) for i in range(64)]
+    b.append(Scenario("%s\nbits(64, (0-1))\nbits(64, (1<<63))\nbits(64, (~5))\n" % n64, s64_,
+                      expect={"row_inputs": [["1"] * 64, ["1"] + ["0"] * 63, ["1"] * 61 + ["0", "1", "0"]]},
+                      note="bits(64, negative): the most significant entry is the sign bit"))
     return b + nonpositive_loop_scenarios(0) + nonpositive_loop_scenarios(-3)
 
 
@@ -480,13 +526,16 @@ def nonpositive_loop_scenarios(bound):
     return out
 
 
-def bits_scenarios(k):
+def bits_scenarios(k, value=None):
     k = max(1, min(int(k), 64))
     names = " ".join("I%d" % i for i in range(k))
     sigs = [("in", "I%d" % i, 1, 0) for i in range(k)]
-    v = (0xA5A5A5A5A5A5A5A5 >> 1) | 1
-    want = [str((v >> (k - 1 - i)) & 1) for i in range(k)]
-    return [Scenario("%s\nbits(%d, %d)\n" % (names, k, v), sigs, expect={"row_inputs": [want]}, note="bits(%d, ..)" % k)]
+    out = []
+    for v in ([(0xA5A5A5A5A5A5A5A5 >> 1) | 1] + ([int(value)] if value is not None else []) + [-1, -(1 << 63)]):
+        want = [str((v >> (k - 1 - i)) & 1) for i in range(k)]
+        out.append(Scenario("%s\nbits(%d, %s)\n" % (names, k, lit(v)), sigs, expect={"row_inputs": [want]},
+                            note="bits(%d, %d)" % (k, v)))
+    return out
 
 
 control_judge = literal_judge
@@ -564,6 +613,15 @@ def vars_battery():
                 "vars survive a failed row", answers={1: [1, 0], 2: [0, 0], 3: [1, 0]}, stop_on_err=False))
     b.append(sc("A B\nlet i = 1;\nloop(i,5)\nlet i = 9223372036854775807;\n1 X\nend loop\n(i) X\n",
                 [{"i": "9223372036854775807"}, {"i": "1"}], "counter driven to i64::MAX: the frame is still popped"))
+    b.append(sc("A B\nlet i = 7;\nloop(i,2)\nloop(j,2)\n1 X\nend loop\nend loop\n",
+                [{"i": "0", "j": "0"}, {"i": "0", "j": "1"}, {"i": "1", "j": "0"}, {"i": "1", "j": "1"}],
+                "a name re-bound below the innermost frame: the innermost of the outer bindings is reported"))
+    b.append(sc("A B\nlet x = 1;\nloop(a,1)\nlet x = 2;\nloop(b,1)\nlet x = 3;\nloop(c,1)\n1 X\nend loop\n2 X\nend loop\n3 X\nend loop\n4 X\n",
+                [{"x": "3", "a": "0", "b": "0", "c": "0"}, {"x": "3", "a": "0", "b": "0"}, {"x": "2", "a": "0"}, {"x": "1"}],
+                "three nested re-bindings uncover one by one"))
+    b.append(sc("A B\nlet k = 0;\nloop(i,2)\nloop(z,k)\n9 X\nend loop\n(i) X\nend loop\n5 X\n",
+                [{"k": "0", "i": "0"}, {"k": "0", "i": "1"}, {"k": "0"}],
+                "zero-trip loop inside a loop leaves the outer frame to the outer loop"))
     b.append(sc("A B\nloop(a,2)\nloop(b,2)\n1 X\nend loop\n2 X\nend loop\n",
                 [{"a": "0", "b": "0"}, {"a": "0", "b": "1"}, {"a": "0"}, {"a": "1", "b": "0"}, {"a": "1", "b": "1"}, {"a": "1"}],
                 "inner counter disappears with the inner loop"))
